@@ -79,14 +79,15 @@ func (e CorpusEntry) Materialise() ([]byte, error) {
 }
 
 type C05Plan struct {
-	Mode   string       `json:"mode"` // "enc" | "dec" | "corpus" | "big"
-	File   lib.FileSpec `json:"file"`
-	Segs   []int        `json:"segs,omitempty"`
-	RSeed  uint64       `json:"rseed,omitempty"`  // dec: seed of the reference writer's random values
-	Corpus int          `json:"corpus,omitempty"` // corpus: entry index
-	Inter  bool         `json:"inter,omitempty"`  // dec: a second reference-written file is decrypted in between the reads of the first (two live readers in one process)
-	Outs   int          `json:"outs,omitempty"`   // dec/corpus: this many non-matching identities (X25519, ssh-ed25519, ssh-rsa in turn) are listed before the matching one
-	Reuse  int          `json:"reuse,omitempty"`  // enc: the recipient objects (one per distinct key) already encrypted this many files before the checked one
+	Mode      string       `json:"mode"` // "enc" | "dec" | "corpus" | "big"
+	File      lib.FileSpec `json:"file"`
+	Segs      []int        `json:"segs,omitempty"`
+	RSeed     uint64       `json:"rseed,omitempty"`      // dec: seed of the reference writer's random values
+	Corpus    int          `json:"corpus,omitempty"`     // corpus: entry index
+	Inter     bool         `json:"inter,omitempty"`      // dec: a second reference-written file is decrypted in between the reads of the first (two live readers in one process)
+	Outs      int          `json:"outs,omitempty"`       // dec/corpus: this many non-matching identities (X25519, ssh-ed25519, ssh-rsa in turn) are listed before the matching one
+	WarmFault int          `json:"warm_fault,omitempty"` // enc with reuse: the first earlier file's destination fails at write call warm_fault-1 (the process lives on and encrypts again)
+	Reuse     int          `json:"reuse,omitempty"`      // enc: the recipient objects (one per distinct key) already encrypted this many files before the checked one
 }
 
 type C05 struct{}
@@ -111,7 +112,7 @@ func (C05) Meta() core.Meta {
 		Real:        []string{"filippo.io/age Encrypt/Decrypt", "all four recipient/identity types", "armor", "internal/stream", "internal/format"},
 		Stub:        []string{"crypto/rand.Reader (tape)", "destination recorder", "reference encoder/decoder (sim/ref)"},
 		FaultKinds:  []string{},
-		Probes:      []string{"probe.enc_x25519", "probe.enc_scrypt", "probe.enc_ssh_ed25519", "probe.enc_ssh_rsa", "probe.enc_grease", "probe.enc_reused_recipient_objects", "probe.two_files_read_alternately", "probe.enc_armor", "probe.dec_ref_written", "probe.corpus_entry", "probe.cctv_vector", "probe.big_257_chunks", "probe.len_on_chunk_boundary", "probe.body_multiple_of_48"},
+		Probes:      []string{"probe.enc_x25519", "probe.enc_scrypt", "probe.enc_ssh_ed25519", "probe.enc_ssh_rsa", "probe.enc_grease", "probe.enc_reused_recipient_objects", "probe.two_files_read_alternately", "probe.enc_after_a_failed_encryption", "probe.enc_armor", "probe.dec_ref_written", "probe.corpus_entry", "probe.cctv_vector", "probe.big_257_chunks", "probe.len_on_chunk_boundary", "probe.body_multiple_of_48"},
 	}
 }
 
@@ -172,6 +173,9 @@ func (C05) Generate(r *core.RNG, tier string, idx uint64) interface{} {
 	p.Segs = lib.GenSegs(r, p.File.PLen)
 	if p.Mode == "enc" && r.Chance(1, 4) {
 		p.Reuse = r.Range(1, 2)
+		if r.Bool() {
+			p.WarmFault = 1 + r.Intn(14)
+		}
 	}
 	if p.Mode == "dec" && r.Chance(1, 2) {
 		p.Outs = r.Range(1, 3)
@@ -296,7 +300,12 @@ func (e C05) execEnc(p *C05Plan, c *core.Ctx) *core.Verdict {
 		for i := 0; i < p.Reuse; i++ {
 			warm := spec
 			warm.PLen, warm.Armor = 3, false
-			if r := lib.EncryptWith(cachedRecipients(cache, spec.Recips), warm, []int{3}, seam.NewDisk(nil, nil), seam.NewTape(spec.Tape+uint64(i)+1), nil); r.AnyErr() {
+			var wf *seam.DiskFault
+			if i == 0 && p.WarmFault > 0 {
+				wf = &seam.DiskFault{Call: p.WarmFault - 1, Byte: -1, Permanent: true, Partial: p.WarmFault%2 == 0}
+				c.Stats.Inc("probe.enc_after_a_failed_encryption")
+			}
+			if r := lib.EncryptWith(cachedRecipients(cache, spec.Recips), warm, []int{3}, seam.NewDisk(wf, nil), seam.NewTape(spec.Tape+uint64(i)+1), nil); r.AnyErr() && wf == nil {
 				return core.Fail("C05.encrypt", "encryption failed: %+v", r)
 			}
 		}
